@@ -1,5 +1,5 @@
 //! C15: forked histories on the real `flag::*` actions with real signals.
-//!   flag b<k> | usize u<k> <v> | shutdown <status> b<k> | set <flag> <v> | raise
+//!   flag b<k> | usize u<k> <v> | shutdown <status> b<k> | set <flag> <v> | raise | unreg <k-th registration>
 //!   thread     — start a second, sleeping thread first (exit:77 = only the delivering thread went away)
 //!   reraiser   — a raw action that raises the same signal again, once, from inside the delivery
 //!                (the signal is blocked while its handler runs, so the second delivery starts
@@ -19,6 +19,8 @@ fn run_child(ops: &[String]) {
     let sig = libc::SIGUSR1;
     let mut bools: Vec<(String, Arc<AtomicBool>)> = Vec::new();
     let mut usizes: Vec<(String, Arc<AtomicUsize>)> = Vec::new();
+    // ids of the flag / usize / shutdown registrations, in registration order (`unreg <k>` removes the k-th)
+    let mut ids: Vec<signal_hook::SigId> = Vec::new();
     let getb = |bools: &mut Vec<(String, Arc<AtomicBool>)>, n: &str| -> Arc<AtomicBool> {
         if let Some((_, a)) = bools.iter().find(|(k, _)| k == n) { return a.clone(); }
         let a = Arc::new(AtomicBool::new(false));
@@ -34,9 +36,15 @@ fn run_child(ops: &[String]) {
     for op in ops {
         let w: Vec<&str> = op.split_whitespace().collect();
         match w.as_slice() {
-            ["flag", f] => { let a = getb(&mut bools, f); signal_hook::flag::register(sig, a).unwrap(); println!("ok"); }
-            ["usize", f, v] => { let a = getu(&mut usizes, f); signal_hook::flag::register_usize(sig, a, v.parse().unwrap()).unwrap(); println!("ok"); }
-            ["shutdown", st, f] => { let a = getb(&mut bools, f); signal_hook::flag::register_conditional_shutdown(sig, st.parse().unwrap(), a).unwrap(); println!("ok"); }
+            ["flag", f] => { let a = getb(&mut bools, f); ids.push(signal_hook::flag::register(sig, a).unwrap()); println!("ok"); }
+            ["usize", f, v] => { let a = getu(&mut usizes, f); ids.push(signal_hook::flag::register_usize(sig, a, v.parse().unwrap()).unwrap()); println!("ok"); }
+            ["shutdown", st, f] => { let a = getb(&mut bools, f); ids.push(signal_hook::flag::register_conditional_shutdown(sig, st.parse().unwrap(), a).unwrap()); println!("ok"); }
+            ["unreg", k] => {
+                // take the k-th registration away again: the others keep their order
+                let k: usize = k.parse().unwrap();
+                let r = ids.get(k).map(|id| signal_hook::low_level::unregister(*id));
+                println!("{}", match r { Some(true) => "ok", Some(false) => "gone", None => "bad-op" });
+            }
             ["set", f, v] => {
                 let v: usize = v.parse().unwrap();
                 if f.starts_with('b') { getb(&mut bools, f).store(v != 0, Ordering::SeqCst); } else { getu(&mut usizes, f).store(v, Ordering::SeqCst); }
